@@ -69,6 +69,14 @@ func (vs *VoteStatus) update(voteType VoteType, validatorType params.ValidatorKi
 	}
 }
 
+func (vs *VoteStatus) clear(voteType VoteType, validatorType params.ValidatorKind) {
+	if validatorType == params.KindChamber && vs.chamber != nil {
+		delete(vs.chamber, voteType)
+	} else if validatorType == params.KindHouse && vs.house != nil {
+		delete(vs.house, voteType)
+	}
+}
+
 func (vs *VoteStatus) status(voteType VoteType, validatorType params.ValidatorKind) bool {
 	if validatorType == params.KindChamber && vs.chamber != nil {
 		return vs.chamber[voteType]
@@ -607,6 +615,15 @@ func (v *Voter) processVoteMsg(ev VoteMsgEvent, status MsgReceivedStatus) (error
 	case addrDifferentVote:
 		if voteInfoData == nil || voteType == NextIndex {
 			return nil, false
+		}
+		// the double voter's weight has been removed from its first block: a quorum
+		// recorded for that block stands only if the remaining votes still reach it
+		if status == msgSame {
+			if _, count := wrapper.getVotes(voteType, voteInfoData.Hash, validatorType); !OverThreshold(count, threshold, voteType != Certificate) {
+				if voteStatus := v.voteOver[voteInfoData.Hash]; voteStatus != nil {
+					voteStatus.clear(voteType, validatorType)
+				}
+			}
 		}
 		yp := v.paramsMgr.CurrentYouParams()
 		if yp.Version < params.YouV5 {
